@@ -53,6 +53,11 @@ pub enum Op {
     SyncCut { puller: u8, server: u8, after: u8 },
     /// explicit recomputation request on a peer
     Recompute { peer: u8 },
+    /// `n` creations issued together on one peer: through a mutation stream (pipelined, stream
+    /// closed at the end) or by `n` concurrent callers
+    Burst { peer: u8, n: u8, stream: bool, room: u8 },
+    /// the admin (peer 0) appends a user entry for a key that belongs to nobody
+    RoomChange { room: u8, key: u8 },
 }
 
 pub fn action_strategy(rooms: u8) -> impl Strategy<Value = Action> {
@@ -91,6 +96,8 @@ pub fn op_strategy(peers: u8, rooms: u8) -> impl Strategy<Value = Op> {
         1 => (0..peers, 0..peers).prop_map(|(a, b)| Op::SyncBoth { a, b }),
         1 => (0..peers, 0..peers, 1u8..12).prop_map(|(puller, server, after)| Op::SyncCut { puller, server, after }),
         1 => (0..peers).prop_map(|peer| Op::Recompute { peer }),
+        1 => (0..peers, 2u8..6, any::<bool>(), 0..rooms).prop_map(|(peer, n, stream, room)| Op::Burst { peer, n, stream, room }),
+        1 => (0..rooms, 0u8..4).prop_map(|(room, key)| Op::RoomChange { room, key }),
     ]
 }
 
@@ -115,6 +122,8 @@ pub struct SyncWorld {
     pub peers: Vec<Peer>,
     pub rooms: Vec<Uid>,
     pub rooms64: Vec<String>,
+    /// id of the single authorisation group of each room
+    pub auths64: Vec<String>,
     pub rows: Vec<RowInfo>,
     /// exclusion by construction of known-finding shapes
     pub single_entity: bool,
@@ -123,6 +132,9 @@ pub struct SyncWorld {
     pub excluded: u64,
     /// mode 0: a row whose references changed at date d is only written by peers that hold a
     /// version >= d, and never twice in the same millisecond
+    /// a closed mutation stream requests its recomputation before its writes are committed (the
+    /// request overtakes them), so the log stays dirty: by default the world asks again, C18 does not
+    pub recompute_after_stream: bool,
     pub ordered_reference_changes: bool,
     pub ref_version: std::collections::BTreeMap<String, i64>,
     pub last_write: std::collections::BTreeMap<String, i64>,
@@ -140,11 +152,13 @@ impl SyncWorld {
             peers,
             rooms: vec![],
             rooms64: vec![],
+            auths64: vec![],
             rows: vec![],
             single_entity: false,
             no_double_delete: false,
             deleted: Default::default(),
             excluded: 0,
+            recompute_after_stream: true,
             ordered_reference_changes: false,
             ref_version: Default::default(),
             last_write: Default::default(),
@@ -174,8 +188,10 @@ impl SyncWorld {
             let res = w.peers[0].mutate(&q, Some(p)).await?;
             let v: serde_json::Value = serde_json::from_str(&res).map_err(|e| e.to_string())?;
             let id = v["sys.Room"]["id"].as_str().ok_or("room id")?.to_string();
+            let auth = v["sys.Room"]["authorisations"][0]["id"].as_str().ok_or("auth id")?.to_string();
             w.rooms.push(uid_of(&id));
             w.rooms64.push(id);
+            w.auths64.push(auth);
         }
         Clock::advance(1);
         for i in 1..n {
@@ -527,6 +543,99 @@ impl SyncWorld {
                     applied: true,
                     kind: "recompute",
                     ..Default::default()
+                }
+            }
+            Op::Burst { peer, n: count, stream, room } => {
+                Clock::advance(1);
+                let pi = *peer as usize % n;
+                let room = self.rooms64[*room as usize % self.rooms64.len()].clone();
+                let q = "mutate { app.Item { room_id:$room name:$text } }";
+                let mut ids = vec![];
+                let mut result: Result<(), String> = Ok(());
+                if *stream {
+                    let (tx, mut rx) = self.peers[pi].db.mutation_stream();
+                    let count = *count;
+                    let room2 = room.clone();
+                    let sender = tokio::spawn(async move {
+                        for i in 0..count {
+                            let mut p = Parameters::new();
+                            p.add("room", room2.clone()).unwrap();
+                            p.add("text", text_for(i)).unwrap();
+                            if tx.send((q.to_string(), Some(p))).await.is_err() {
+                                break;
+                            }
+                        }
+                    });
+                    while let Some(r) = rx.recv().await {
+                        match r {
+                            Ok(m) => match m.result() {
+                                Ok(js) => {
+                                    let v: serde_json::Value = serde_json::from_str(&js).unwrap();
+                                    ids.push(v["app.Item"]["id"].as_str().unwrap().to_string());
+                                }
+                                Err(e) => result = Err(e.to_string()),
+                            },
+                            Err(e) => result = Err(e.to_string()),
+                        }
+                    }
+                    let _ = sender.await;
+                } else {
+                    let mut futs = vec![];
+                    for i in 0..*count {
+                        let mut p = Parameters::new();
+                        p.add("room", room.clone()).unwrap();
+                        p.add("text", text_for(i)).unwrap();
+                        futs.push(self.peers[pi].mutate(q, Some(p)));
+                    }
+                    for r in futures::future::join_all(futs).await {
+                        match r {
+                            Ok(js) => {
+                                let v: serde_json::Value = serde_json::from_str(&js).unwrap();
+                                ids.push(v["app.Item"]["id"].as_str().unwrap().to_string());
+                            }
+                            Err(e) => result = Err(e),
+                        }
+                    }
+                }
+                ids.sort();
+                for id in ids {
+                    self.rows.push(RowInfo { id, entity: 0, creator: pi });
+                }
+                self.peers[pi].fence().await;
+                if *stream && self.recompute_after_stream {
+                    self.peers[pi].recompute().await;
+                }
+                StepInfo {
+                    applied: true,
+                    kind: if *stream { "burst-stream" } else { "burst-concurrent" },
+                    peer: Some(pi),
+                    result: Some(result),
+                    stats: vec![],
+                }
+            }
+            Op::RoomChange { room, key } => {
+                Clock::advance(1);
+                let ri = *room as usize % self.rooms64.len();
+                let mut p = Parameters::new();
+                p.add("room", self.rooms64[ri].clone()).unwrap();
+                p.add("auth", self.auths64[ri].clone()).unwrap();
+                let paper = signing_key_for_secret(&secret_for(&format!("paper{}", key)));
+                use discret::verif::security::SigningKey;
+                p.add("k", b64(&paper.export_verifying_key())).unwrap();
+                let r = self.peers[0]
+                    .mutate(
+                        "mutate { sys.Room { id:$room authorisations:[{ id:$auth users:[{verif_key:$k}] }] } }",
+                        Some(p),
+                    )
+                    .await
+                    .map(|_| ());
+                self.peers[0].fence().await;
+                StepInfo {
+                    applied: true,
+                    kind: "room-change",
+                    peer: Some(0),
+                    result: Some(r),
+                    stats: vec![],
                 }
             }
         }
